@@ -13,5 +13,7 @@ Spec == Init /\ [][Next]_<<d0, dT, w, inst>>
 Emit == PrintT(ToJson([d0 |-> d0, dT |-> dT, w |-> w, inst |-> inst,
                        valid |-> ValidAttrs(d0, dT, w, inst),
                        dec1 |-> DecSeq(Decoded(d0, dT, w, inst, TRUE)),
-                       dec0 |-> DecSeq(Decoded(d0, dT, w, inst, FALSE))]))
+                       dec0 |-> DecSeq(Decoded(d0, dT, w, inst, FALSE)),
+                       dec1f |-> DecSeq(DecodedFill(d0, dT, w, inst, TRUE)),
+                       dec0f |-> DecSeq(DecodedFill(d0, dT, w, inst, FALSE))]))
 =============================================================================
